@@ -272,9 +272,22 @@ pub fn run() -> SimResult {
                         let len = ma.len();
                         trace::bump(C::dom_mutations);
                         trace::nontrivial();
+                        // entry state: one time in three the container is taken out of its place and turned into
+                        // a typed `Array` handle (no promotion yet), operated on, and put back; otherwise it is
+                        // reached through as_array_mut(), which promotes first
+                        let typed = chance(1, 3);
+                        let mut holder: Option<sonic_rs::Array> = None;
+                        if typed {
+                            tr!("{} #{}{} (through a typed Array handle)", what, hi, gen::path_str(&p));
+                            let taken = libcall("take", || nav_mut(&mut pool[hi].v, &p).expect("path").take())?;
+                            holder = Some(libcall("into_array", || taken.into_array())?.ok_or_else(|| mismatch(&what, "into_array", "None on an array".into()))?);
+                        }
                         macro_rules! arr {
                             ($v:expr) => {
-                                nav_mut($v, &p).and_then(|x| x.as_array_mut()).expect("array at path")
+                                match holder.as_mut() {
+                                    Some(h) => h,
+                                    None => nav_mut($v, &p).and_then(|x| x.as_array_mut()).expect("array at path"),
+                                }
                             };
                         }
                         let mslot = |m: &mut J| -> *mut Vec<J> {
@@ -400,7 +413,7 @@ pub fn run() -> SimResult {
                             }
                             12 => {
                                 // append the contents of (a clone of) another array in the pool
-                                let donors: Vec<usize> = (0..pool.len()).filter(|&k| pool[k].m.kind() == Kind::Arr).collect();
+                                let donors: Vec<usize> = (0..pool.len()).filter(|&k| pool[k].m.kind() == Kind::Arr && !(typed && k == hi)).collect();
                                 if !donors.is_empty() {
                                     let d = *pick(&donors);
                                     tr!("{} #{}{} append clone of #{}", what, hi, gen::path_str(&p), d);
@@ -489,26 +502,48 @@ pub fn run() -> SimResult {
                                 let ncalls = len + 1 + draw(3) as usize;
                                 let sched: Vec<bool> = (0..ncalls).map(|_| draw(2) == 1).collect();
                                 tr!("{} #{}{} into_iter of a clone, schedule {}", what, hi, gen::path_str(&p), sched.iter().map(|b| if *b { 'b' } else { 'f' }).collect::<String>());
-                                let (items, lens): (Vec<Option<Value>>, Vec<usize>) = libcall("into_iter", || {
+                                // before one drawn call the rest of the iterator is looked at as a slice (as_slice /
+                                // as_mut_slice / AsRef / AsMut): like vec::IntoIter, that is what has not been yielded yet
+                                let probe_at = draw(ncalls as u32 + 1) as usize;
+                                let probe_how = draw(4);
+                                let (items, lens, rest): (Vec<Option<Value>>, Vec<usize>, Option<Vec<Value>>) = libcall("into_iter", || {
                                     let a: Array = arr!(&mut pool[hi].v).clone();
                                     let mut it = a.into_iter();
                                     let mut out = Vec::new();
                                     let mut lens = Vec::new();
-                                    for &back in &sched {
+                                    let mut rest = None;
+                                    for (k, &back) in sched.iter().enumerate() {
+                                        if k == probe_at {
+                                            rest = Some(match probe_how {
+                                                0 => it.as_slice().to_vec(),
+                                                1 => it.as_mut_slice().to_vec(),
+                                                2 => AsRef::<[Value]>::as_ref(&it).to_vec(),
+                                                _ => AsMut::<[Value]>::as_mut(&mut it).to_vec(),
+                                            });
+                                        }
                                         out.push(if back { it.next_back() } else { it.next() });
                                         lens.push(it.len());
                                     }
-                                    (out, lens)
+                                    (out, lens, rest)
                                 })?;
                                 let mut model: std::collections::VecDeque<J> = ma.iter().cloned().collect();
                                 for (k, &back) in sched.iter().enumerate() {
+                                    if k == probe_at {
+                                        let rest = rest.as_ref().expect("probed");
+                                        if rest.len() != model.len() {
+                                            return Err(mismatch(&what, "IntoIter::as_slice", format!("{} element(s) before call {} but {} have not been yielded yet (access {})", rest.len(), k, model.len(), probe_how)));
+                                        }
+                                        for (g, w) in rest.iter().zip(model.iter()) {
+                                            libcall("check", || oracle::check_value(g, w, &format!("{} IntoIter::as_slice element", what)))??;
+                                        }
+                                    }
                                     let want = if back { model.pop_back() } else { model.pop_front() };
                                     libcall("check", || same_opt(&items[k], &want, &what, if back { "IntoIter::next_back" } else { "IntoIter::next" }))??;
                                     if lens[k] != model.len() {
                                         return Err(mismatch(&what, "IntoIter::len", format!("{} after call {} but the model has {} left", lens[k], k, model.len())));
                                     }
                                 }
-                                libcall("drop", move || drop(items))?;
+                                libcall("drop", move || drop((items, rest)))?;
                             }
                             _ => {
                                 // Extend / FromIterator
@@ -517,6 +552,11 @@ pub fn run() -> SimResult {
                                 libcall("extend", || arr!(&mut pool[hi].v).extend(extra.iter()))?;
                                 ma_mut.extend(extra.iter().map(|x| J::Num(x.to_string())));
                             }
+                        }
+                        if let Some(h) = holder.take() {
+                            let back = libcall("into_value", || h.into_value())?;
+                            let slot = nav_mut(&mut pool[hi].v, &p).expect("path");
+                            libcall("put back", move || *slot = back)?;
                         }
                     }
                 }
@@ -536,9 +576,19 @@ pub fn run() -> SimResult {
                         let J::Obj(mo) = gen::at_path(&pool[hi].m, &p).unwrap().clone() else { unreachable!() };
                         trace::bump(C::dom_mutations);
                         trace::nontrivial();
+                        let typed = chance(1, 3);
+                        let mut holder: Option<sonic_rs::Object> = None;
+                        if typed {
+                            tr!("{} #{}{} (through a typed Object handle)", what, hi, gen::path_str(&p));
+                            let taken = libcall("take", || nav_mut(&mut pool[hi].v, &p).expect("path").take())?;
+                            holder = Some(libcall("into_object", || taken.into_object())?.ok_or_else(|| mismatch(&what, "into_object", "None on an object".into()))?);
+                        }
                         macro_rules! obj {
                             ($v:expr) => {
-                                nav_mut($v, &p).and_then(|x| x.as_object_mut()).expect("object at path")
+                                match holder.as_mut() {
+                                    Some(h) => h,
+                                    None => nav_mut($v, &p).and_then(|x| x.as_object_mut()).expect("object at path"),
+                                }
                             };
                         }
                         let mo_mut: &mut Vec<(String, J)> = unsafe {
@@ -756,7 +806,7 @@ pub fn run() -> SimResult {
                                 });
                             }
                             32 => {
-                                let donors: Vec<usize> = (0..pool.len()).filter(|&k| pool[k].m.kind() == Kind::Obj).collect();
+                                let donors: Vec<usize> = (0..pool.len()).filter(|&k| pool[k].m.kind() == Kind::Obj && !(typed && k == hi)).collect();
                                 if !donors.is_empty() {
                                     let d = *pick(&donors);
                                     tr!("{} #{}{} append clone of #{}", what, hi, gen::path_str(&p), d);
@@ -830,6 +880,11 @@ pub fn run() -> SimResult {
                                     trace::bump(C::dom_rejected_ops);
                                 }
                             }
+                        }
+                        if let Some(h) = holder.take() {
+                            let back = libcall("into_value", || h.into_value())?;
+                            let slot = nav_mut(&mut pool[hi].v, &p).expect("path");
+                            libcall("put back", move || *slot = back)?;
                         }
                     }
                 }
@@ -1229,8 +1284,25 @@ pub fn run() -> SimResult {
                                     }
                                 }
                                 _ => {
-                                    libcall("Array::retain", || h.retain(|x| !x.is_null()))?;
-                                    a.retain(|x| !matches!(x, J::Null));
+                                    if chance(1, 2) {
+                                        libcall("Array::retain", || h.retain(|x| !x.is_null()))?;
+                                        a.retain(|x| !matches!(x, J::Null));
+                                    } else {
+                                        libcall("Array::retain_mut", || {
+                                            h.retain_mut(|x| {
+                                                if x.is_boolean() {
+                                                    *x = Value::from("kept");
+                                                }
+                                                !x.is_null()
+                                            })
+                                        })?;
+                                        a.retain_mut(|x| {
+                                            if matches!(x, J::Bool(_)) {
+                                                *x = J::Str("kept".into());
+                                            }
+                                            !matches!(x, J::Null)
+                                        });
+                                    }
                                 }
                             }
                             let l = libcall("Array::len", || h.len())?;
@@ -1341,8 +1413,21 @@ pub fn run() -> SimResult {
                                     }
                                 }
                                 4 => {
-                                    libcall("Object::retain", || h.retain(|k, _| k != key))?;
-                                    o.retain(|(k, _)| *k != key);
+                                    // the closure also writes through its `&mut Value` to members it keeps
+                                    libcall("Object::retain", || {
+                                        h.retain(|k, v| {
+                                            if v.is_null() || v.is_boolean() {
+                                                *v = Value::from("kept");
+                                            }
+                                            k != key
+                                        })
+                                    })?;
+                                    o.retain_mut(|(k, v)| {
+                                        if matches!(v, J::Null | J::Bool(_)) {
+                                            *v = J::Str("kept".into());
+                                        }
+                                        *k != key
+                                    });
                                 }
                                 _ => {
                                     libcall("Object::entry.or_insert", || {
@@ -1383,6 +1468,10 @@ pub fn run() -> SimResult {
                                 }
                                 Ok(())
                             })??;
+                            let l = libcall("Object::iter_mut().len", || h.iter_mut().len())?;
+                            if l != o.len() {
+                                return Err(mismatch(&what, "Object::iter_mut().len", format!("{} but the model has {}", l, o.len())));
+                            }
                             libcall("Object &mut iteration", || {
                                 for (_k, x) in &mut h {
                                     if x.is_null() {
